@@ -1,5 +1,5 @@
 SPECIFICATION TraceSpec
-CONSTANTS NH = 4 Gran = 128 Hdr = 64 PChunk = 64 MaxLen = 100000 MaxArg = 100000 Prune = FALSE
+CONSTANTS NH = 4 Gran = 128 Hdr = 64 PChunk = 64 MaxLen = 100000 MaxArg = 100000 Prune = FALSE Api = "c"
 INVARIANTS TypeOK AliasOK Refines NoTouch
 POSTCONDITION TraceAccepted
 CHECK_DEADLOCK FALSE
